@@ -89,7 +89,7 @@ func runC18Walk(t *testing.T, sc *world.Scenario) *check.Result {
 		res.Harness = "c18 needs root (chown)"
 		return res
 	}
-	dir, err := os.MkdirTemp(shmBase2(), "verif-c18-")
+	dir, err := os.MkdirTemp(shmBase2(), fmt.Sprintf("verif-c18-%d-", os.Getpid()))
 	if err != nil {
 		res.Harness = err.Error()
 		return res
